@@ -142,7 +142,8 @@ func globSegs(pat, ps []string) bool {
 	return globSegs(pat[1:], ps[1:])
 }
 
-// globSeg: '*' any run of characters, '?' exactly one, everything else literal.
+// globSeg: '*' any run of characters, '?' exactly one, '[...]' one character of a class,
+// everything else literal.
 func globSeg(p, s []rune) bool {
 	if len(p) == 0 {
 		return len(s) == 0
@@ -157,6 +158,38 @@ func globSeg(p, s []rune) bool {
 		return false
 	case '?':
 		return len(s) > 0 && globSeg(p[1:], s[1:])
+	case '[':
+		// a character class: single characters and ranges, negated by a leading '^'
+		end := -1
+		for k := 2; k < len(p); k++ {
+			if p[k] == ']' {
+				end = k
+				break
+			}
+		}
+		if end < 0 {
+			return len(s) > 0 && s[0] == '[' && globSeg(p[1:], s[1:])
+		}
+		if len(s) == 0 {
+			return false
+		}
+		items := p[1:end]
+		neg := false
+		if len(items) > 0 && items[0] == '^' {
+			neg, items = true, items[1:]
+		}
+		in := false
+		for k := 0; k < len(items); k++ {
+			if k+2 < len(items) && items[k+1] == '-' {
+				if items[k] <= s[0] && s[0] <= items[k+2] {
+					in = true
+				}
+				k += 2
+			} else if items[k] == s[0] {
+				in = true
+			}
+		}
+		return in != neg && globSeg(p[end+1:], s[1:])
 	default:
 		return len(s) > 0 && s[0] == p[0] && globSeg(p[1:], s[1:])
 	}
